@@ -187,5 +187,5 @@ example : (halfRadii ⟨-3, 2⟩ 4 3).InRange := by decide
 example : (halfRadii ⟨-3, 2⟩ 4 3).points = (⟨⟨-3, 2⟩, ⟨8, 6⟩⟩ : Ellipse).points ∧
     (halfRadii ⟨-3, 2⟩ 4 3).points.length ≥ 20 := by decide
 
--- [V] band of half a pixel stated with grown / shrunk semi-axes (implied by the exact ideal-ellipse theorems above for every corner; the oracle also evaluates the +-1/2 band directly): carried by correspondence + oracle only
+-- (closed) the band of half a pixel stated with grown / shrunk semi-axes is proved from the exact ideal-ellipse theorems above, for every corner and for the whole shape, in Props/C18/RoundedRectBand.lean (`corner_band_outer`, `corner_band_inner`, `rrect_band_outer`, `rrect_band_inner`); the oracle evaluates the same +-1/2 band on the real code
 end EG.C18
